@@ -112,6 +112,15 @@ def grid_worker(part, chunk, unit_rad):
         try:
             u1 = UnitCell.from_lengths_and_angles([a, b, c], [al, be, ga], unit="degrees" if (int(a * 10) + int(al)) % 2 else rt("degrees"))
             ok = check_cell(part, u1, params, "lengths+angles(degrees)", case)
+            if idx % 7 == 0:
+                import copy
+                import pickle
+
+                for cname, dup in (("copy", copy.copy), ("deepcopy", copy.deepcopy), ("pickle", lambda x: pickle.loads(pickle.dumps(x)))):
+                    check_cell(part, dup(u1), params, "lengths+angles(degrees)+" + cname, case)
+                # the unit handed over positionally (third argument), as the documented signature (lengths, angles, unit) allows
+                check_cell(part, UnitCell.from_lengths_and_angles([a, b, c], [al, be, ga], "degrees"), params, "lengths+angles(positional unit)", case)
+                check_cell(part, UnitCell.from_lengths_and_angles([a, b, c], list(np.radians([al, be, ga]))), params, "lengths+angles(default unit)", case)
             if unit_rad:
                 u1r = UnitCell.from_lengths_and_angles([a, b, c], list(np.radians([al, be, ga])), unit="radians" if (int(b * 10) + int(be)) % 2 else rt("radians"))
                 check_cell(part, u1r, params, "lengths+angles(radians)", case)
